@@ -1,5 +1,70 @@
 ------------------------------- MODULE FxpText ------------------------------
-(* bin/hex/base_repr images, string parsers and dtype strings, on sequences of *)
-(* character codes (TLA+ strings are atomic).                                   *)
+(***************************************************************************)
+(* bin / hex / base_repr images of a code and dtype strings, on sequences  *)
+(* of character codes (TLA+ strings are atomic).  Property level (C11,     *)
+(* C12), functor over the Z interface so that the same definitions render  *)
+(* 256-bit codes.  The implementation-shaped PARSERS are in FxpParse.      *)
+(***************************************************************************)
 EXTENDS FxpOps
+
+CH0 == 48   CH1 == 49   CHDOT == 46   CHMINUS == 45   CHPLUS == 43   CHSLASH == 47
+CHb == 98   CHx == 120  CHA == 65     CHa == 97       CHHASH == 35
+\* "fxp-"  "-complex"  "Q"  "UQ"  "S"  "U"
+S_fxp == <<102, 120, 112, 45>>
+S_complex == <<45, 99, 111, 109, 112, 108, 101, 120>>
+S_0b == <<CH0, CHb>>
+S_0x == <<CH0, CHx>>
+
+(****************************** binary image *******************************)
+\* the n_word-character two's-complement image of the code, MSB first
+BinImage(c, w) == LET u == ZMod2(c, w) IN [i \in 1..w |-> CH0 + ZBit(u, w - i)]
+\* binary point f digits from the right, 0 <= f <= w   ("101." for f = 0, ".101" for f = w)
+WithPoint(img, f) == LET w == Len(img) IN SubSeq(img, 1, w - f) \o <<CHDOT>> \o SubSeq(img, w - f + 1, w)
+BinString(c, t, point, prefix) ==
+   LET img == BinImage(c, t.w)
+       body == IF point THEN WithPoint(img, t.f) ELSE img
+   IN prefix \o body
+
+(******************************** hex image ********************************)
+NHex(w) == (w + 3) \div 4
+HexDigitCh(d) == IF d < 10 THEN CH0 + d ELSE CHA + d - 10          \* upper case
+\* digit j (0 = least significant) of the n_word-bit pattern
+HexDigitAt(u, j) == ZBit(u, 4*j) + 2 * ZBit(u, 4*j + 1) + 4 * ZBit(u, 4*j + 2) + 8 * ZBit(u, 4*j + 3)
+HexImage(c, w) == LET u == ZMod2(c, w)  n == NHex(w) IN [i \in 1..n |-> HexDigitCh(HexDigitAt(u, n - i))]
+HexString(c, t, prefix) == prefix \o HexImage(c, t.w)
+
+(************************ sign-magnitude numerals **************************)
+\* value of a digit character in bases up to 36 (upper-case letters), -1 if not a digit
+DigitVal(ch) == IF ch >= CH0 /\ ch <= CH0 + 9 THEN ch - CH0
+                ELSE IF ch >= CHA /\ ch <= CHA + 25 THEN ch - CHA + 10 ELSE -1
+\* the natural number a numeral denotes in base b (Horner), as a Z
+NumeralValue(s, b) ==
+   LET RECURSIVE h(_)
+       h(i) == IF i = 0 THEN Z0 ELSE ZAdd(ZMul(h(i - 1), ZI(b)), ZI(DigitVal(s[i])))
+   IN h(Len(s))
+\* s is THE sign-magnitude numeral of c in base b: optional '-', canonical digits, right value
+IsBaseRepr(s, c, b) ==
+   LET neg == Len(s) >= 1 /\ s[1] = CHMINUS
+       d == IF neg THEN Tail(s) ELSE s
+   IN /\ Len(d) >= 1
+      /\ \A i \in DOMAIN d : DigitVal(d[i]) >= 0 /\ DigitVal(d[i]) < b
+      /\ (Len(d) > 1 => d[1] # CH0)                      \* no leading zeros
+      /\ neg = ZIsNeg(c)
+      /\ NumeralValue(d, b) = ZAbs(c)
+
+(******************************* dtype strings *****************************)
+\* decimal numeral of a native integer
+RECURSIVE NatChars(_)
+NatChars(n) == IF n < 10 THEN <<CH0 + n>> ELSE NatChars(n \div 10) \o <<CH0 + (n % 10)>>
+IntChars(n) == IF n < 0 THEN <<CHMINUS>> \o NatChars(-n) ELSE NatChars(n)
+\* 'fxp-s8/3', 'fxp-u16/-2-complex'
+FxpString(t, cplx) == S_fxp \o <<IF t.s THEN 115 ELSE 117>> \o NatChars(t.w) \o <<CHSLASH>> \o IntChars(t.f)
+                      \o (IF cplx THEN S_complex ELSE <<>>)
+\* 'Q5.3' / 'UQ5.3':  m.n with n_word = m + n, the sign bit counted in m
+QString(t) == (IF t.s THEN <<81>> ELSE <<85, 81>>) \o IntChars(t.w - t.f) \o <<CHDOT>> \o IntChars(t.f)
+\* the equivalent S/U spelling accepted by the parser
+SUString(t) == (IF t.s THEN <<83>> ELSE <<85>>) \o IntChars(t.w - t.f) \o <<CHDOT>> \o IntChars(t.f)
+DtypeString(t, cplx, notation) == IF notation = "Q" THEN QString(t) ELSE FxpString(t, cplx)
+Lower(s) == [i \in DOMAIN s |-> IF s[i] >= 65 /\ s[i] <= 90 THEN s[i] + 32 ELSE s[i]]
+Upper(s) == [i \in DOMAIN s |-> IF s[i] >= 97 /\ s[i] <= 122 THEN s[i] - 32 ELSE s[i]]
 =============================================================================
